@@ -35,7 +35,9 @@ CLAIMED = {
         'unary functions with arbitrary derivative tables, powers, buffers, views and in-place writes incl. y[k] = view of y[k], every input, '
         'direction and seed; closed under the global context): the reverse sweep of the model (adjoint heap mirroring the value heap, restore '
         'step after the pullback of an in-place write) is the transpose of the forward tangent sweep, sum_i xbar_i dx_i = sum_j ybar_j '
-        '(F\'(x) dx)_j; the setitem pullback as it stood before the repair is refuted by a kernel-checked witness (this refutation, produced by '
+        '(F\'(x) dx)_j; the EXECUTABLE instance run by vm_compute (coefficient lists of length D over a field, series kernels) is proved to '
+        'refine the ring instance at {poly K} modulo X^D for every tape, so the identity holds for it at every Taylor order d < D '
+        '(C03_exec_adjoint, C03_exec_grad_refines); the setitem pullback as it stood before the repair is refuted by a kernel-checked witness (this refutation, produced by '
         'the failed proof attempt, exposed a real defect that was then repaired). On every run: the adjoint identity on the implementation for '
         'generated programs (F\'v from forward propagation alone, evaluation point != recording point, D<=4, P<=3, all orders), every xbar '
         'coefficient of rational scalar programs with buffers against the Coq model, and documented unsupported operations raising.',
@@ -57,7 +59,8 @@ CLAIMED = {
    text='Theorems (every commutative ring of values, every well-formed program with buffers/views/in-place writes, every input; closed '
         'under the global context): recording appends exactly the nodes of the executed operations, numbered in execution order, each '
         'after its operands (wf_tape of the recorded tape); replaying the recorded tape on ANY input equals running the program directly; '
-        'replay has no hidden state. On every run: values through tracer nodes vs the program on unwrapped operands, replays with unrelated '
+        'replay has no hidden state; the same for the executable series instance at every Taylor order, which refines the ring instance '
+        '(C05_exec_replay_is_eval, C05_exec_replay_refines, C05_exec_record_commutes). On every run: values through tracer nodes vs the program on unwrapped operands, replays with unrelated '
         'inputs (ndarray / UTPM any D,P) vs direct evaluation, nothing recorded while tracing is off, and for rational programs the '
         'recorded tape (names, argument ids) and replay values against the Coq model Tracer.v exactly.',
    note=NOTE_COMMON + 'The Coq tracer model covers scalar programs with buffers over + - * / neg pow square reciprocal; array-level operations are covered by the direct predicates only. Python object identity is outside the model.',
@@ -77,17 +80,19 @@ CLAIMED = {
    text='Theorems (every field, every D, sizes, closed under the global context): the matrix kernels are written once over abstract '
         'operations; instantiated with mathcomp matrices they satisfy X(t)Y(t) Cauchy product, A(t) inv(A)(t) = I = inv(A)(t) A(t) (over any '
         'ring) and A(t) X(t) = B(t) modulo t^D; the executable list-matrix instance refines the mathcomp instance (morphism lemmas and '
-        'transfer), so the same identities hold for the terms vm_compute runs. On every run: the implementation against the Coq model '
+        'transfer), so the same identities hold for the terms vm_compute runs; det via LU (piv2det * prod diag U, the executable luU and '
+        'detU kernels end to end) is the Leibniz determinant of the polynomial matrix modulo X^D (C07_detU_luU_is_det). On every run: the implementation against the Coq model '
         '(dot, inv, solve in three operand mixes, base inverses from NumPy as the implementation takes them) and exact-rational predicates on '
         'the implementation output: numpy.dot/outer on exact series objects for every rank combination and operand mix, residuals of '
         'A inv(A) = I and A X = B, Leibniz determinant, det * logdet\' = det\', trace; expm at orders 0 and 1 against SciPy.',
-   note=NOTE_COMMON + 'det/logdet/expm have no theorem (validated per case against exact predicates); closeness of the Pade approximant to expm is numerical analysis.',
+   note=NOTE_COMMON + 'logdet/expm have no theorem (validated per case against exact predicates); closeness of the Pade approximant to expm is numerical analysis.',
    technique='Coq proof over abstract rings + refinement of executable list matrices to mathcomp matrices + correspondence and exact residual predicates',
    design='4/C07'),
  'C08': dict(
    text='Theorems (every field with 2 != 0, every size, every D, all higher coefficients; closed under the global context): the Cholesky, '
         'pivoted LU and square QR recurrences of the model satisfy L L^T = A (L_d lower), L U = w^T A (L unit lower, U upper, constant '
-        'permutation), Q R = A, Q^T Q = I (R upper) modulo t^D whenever the base factors satisfy them at order 0. On every run: the '
+        'permutation), Q R = A, Q^T Q = I (R upper) modulo t^D whenever the base factors satisfy them at order 0; the executable list-matrix '
+        'kernels luU/cholU/qrU refine these instances (C08_*_refines). On every run: the '
         'implementation against the Coq models (base factors from NumPy/SciPy as the implementation takes them) and, for EVERY factorization '
         '(qr reduced square/tall/wide, qr_full, cholesky, lu, eigh with distinct and exactly repeated base eigenvalues incl. splitting at '
         'order 2, eig D<=2, svd square/tall/wide), the defining equations, triangular structure, ordering and base-point factors evaluated '
